@@ -1,7 +1,7 @@
 (** Lemmas about the multi-client model (Model/MultiClient.v): invariant of the
     reachable states, append-only version lists per lineage, refusal of stale
     commits, exactness of the known class [c14_recreated_lineage]. *)
-From Rocfl Require Import Base.Bytes Model.VersionNum Model.Known Model.MultiClient Model.KnownC14
+From Rocfl Require Import Base.Bytes Model.VersionNum Model.MultiClient Model.KnownC14
   Proofs.BytesFacts Proofs.VersionNumFacts.
 From Coq Require Import ZArith Lia ZifyBool ZifyN ZifyNat.
 Ltac Zify.zify_post_hook ::= Z.div_mod_to_equations.
@@ -160,12 +160,11 @@ Qed.
 (** * Invariant of the states reachable outside the known classes *)
 
 Definition obj_ok (next : N) (o : obj) : Prop :=
-  o_lineage o < next /\ vwf (o_head o) = true /\ vfits (o_head o) = true /\
-  vn_width (o_head o) <= 10 /\
+  o_lineage o < next /\ vnumok (o_head o) = true /\ vfits (o_head o) = true /\
   vn_number (o_head o) = N.of_nat (List.length (o_versions o)).
 
 Definition stg_ok (st : mc) (id : bytes) (s : staged) : Prop :=
-  vwf (s_head s) = true /\ vfits (s_head s) = true /\ vn_width (s_head s) <= 10 /\
+  vnumok (s_head s) = true /\ vfits (s_head s) = true /\
   vn_number (s_head s) = N.of_nat (List.length (s_versions s)) + 1 /\
   s_state s = apply_edits (s_edits s) (last_state (s_versions s)) /\
   match s_base s with
@@ -183,21 +182,25 @@ Definition mc_inv (st : mc) : Prop :=
 Lemma mc_inv_init : mc_inv mc_init.
 Proof. split; intros; discriminate. Qed.
 
-Lemma v1_stored_ok w : w <= 10 ->
-  vwf (v1_stored w) = true /\ vfits (v1_stored w) = true /\ vn_width (v1_stored w) <= 10 /\
-  vn_number (v1_stored w) = 1.
+Lemma v1_stored_ok w :
+  vnumok (v1_stored w) = true /\ vfits (v1_stored w) = true /\ vn_number (v1_stored w) = 1.
 Proof.
-  intros H.
-  assert (Hc : w = 0 \/ w = 1 \/ w = 2 \/ w = 3 \/ w = 4 \/ w = 5 \/ w = 6 \/ w = 7 \/ w = 8 \/ w = 9 \/ w = 10) by lia.
-  repeat (destruct Hc as [->|Hc]); try subst w; vm_compute; repeat split; congruence.
+  unfold v1_stored. destruct (w =? 1) eqn:E1; [repeat split; reflexivity|].
+  cbn [vn_number]. split; [reflexivity|]. split; [|reflexivity].
+  unfold vfits, max_for_width. cbn [vn_number vn_width].
+  destruct (w =? 0) eqn:E0; [reflexivity|]. destruct (w <=? 10) eqn:E10; [|reflexivity].
+  assert (Hp : 10 ^ 1 <= 10 ^ (w - 1)) by (apply N.pow_le_mono_r; lia).
+  change (10 ^ 1) with 10 in Hp. lia.
 Qed.
 
-(** what every later command reads back from the staged inventory.json *)
-Lemma v1_stored_reparse w : w <= 10 -> vparse (vdisplay (mkV 1 w)) = Ok (v1_stored w).
+(** what every later command reads back from the staged inventory.json, for every u32 width *)
+Lemma v1_stored_reparse w : w <= U32MAX -> vparse (vdisplay (mkV 1 w)) = Ok (v1_stored w).
 Proof.
-  intros H.
-  assert (Hc : w = 0 \/ w = 1 \/ w = 2 \/ w = 3 \/ w = 4 \/ w = 5 \/ w = 6 \/ w = 7 \/ w = 8 \/ w = 9 \/ w = 10) by lia.
-  repeat (destruct Hc as [->|Hc]); try subst w; vm_compute; reflexivity.
+  intros H. unfold v1_stored. destruct (w =? 1) eqn:E1.
+  - assert (w = 1) by lia. subst w. vm_compute. reflexivity.
+  - apply vparse_vdisplay.
+    + unfold vwf. cbn [vn_number vn_width]. unfold U32MAX in *. lia.
+    + pose proof (v1_stored_ok w) as (_ & Hf & _). unfold v1_stored in Hf. rewrite E1 in Hf. exact Hf.
 Qed.
 
 Lemma apply_edits_snoc es e s : apply_edits (es ++ [e]) s = apply_edit e (apply_edits es s).
@@ -240,7 +243,7 @@ Lemma stg_ok_transfer st st' id s :
      extends (s_versions s) (o_versions o') /\ vn_width (o_head o') = vn_width (s_head s)) ->
   stg_ok st' id s.
 Proof.
-  intros (H1 & H2 & H3 & H4 & H5 & H6) Hn Hm. repeat split; try assumption.
+  intros (H1 & H2 & H4 & H5 & H6) Hn Hm. repeat split; try assumption.
   destruct (s_base s) as [l|] eqn:Eb; [|assumption].
   destruct H6 as (Hl & Hne & _).
   split; [lia|]. split; [exact Hne|].
@@ -266,12 +269,12 @@ Lemma commit_ver_facts dbg st c id s o p :
   s_state s = apply_edits (s_edits s) (last_state (o_versions o)).
 Proof.
   intros [Hmain Hstag] Es Hn1 Em Ep Hnum Hk.
-  destruct (Hstag _ _ _ Es) as (Swf & Sfit & Sw & Snum & Sstate & Sbase).
-  destruct (Hmain _ _ Em) as (Olin & Owf & Ofit & Ow & Onum).
+  destruct (Hstag _ _ _ Es) as (Swf & Sfit & Snum & Sstate & Sbase).
+  destruct (Hmain _ _ Em) as (Olin & Owf & Ofit & Onum).
   rewrite vprev_correct in Ep by assumption.
   assert (Hn1' : (vn_number (s_head s) =? 1) = false) by lia. rewrite Hn1' in Ep.
   injection Ep as <-. cbn [vn_number] in Hnum.
-  assert (Hge : 1 <= vn_number (s_head s)) by (unfold vwf in Swf; lia).
+  assert (Hge : 1 <= vn_number (s_head s)) by (unfold vnumok in Swf; lia).
   unfold c14_recreated_lineage in Hk. rewrite Es, Em, Hn1' in Hk. cbn [negb andb] in Hk.
   replace (vn_number (o_head o) + 1 =? vn_number (s_head s)) with true in Hk by lia.
   rewrite andb_true_r in Hk.
@@ -289,17 +292,15 @@ Lemma step_rel_inv dbg st c o st' r :
   mc_inv st -> step_clean st c o = true -> step_rel dbg st c o st' r -> mc_inv st'.
 Proof.
   intros Hinv Hclean Hstep. pose proof Hinv as [Hmain Hstag].
-  unfold step_clean in Hclean. apply andb_true_iff in Hclean. destruct Hclean as [Hkn Hov].
-  apply negb_true_iff in Hkn. apply negb_true_iff in Hov.
+  pose proof Hclean as Hkn. unfold step_clean in Hkn. apply negb_true_iff in Hkn.
   destruct Hstep as [o r Hr|id w Em Es|id e s Es|id e ob h Es Em En|id s Es H1 Em|id s ob p Es H1 Em Ep Hnum|id|id].
   - exact Hinv.
   - (* New *)
-    cbn [step_overflow] in Hov.
     split.
     + intros id' o' Hg. getsimp. eapply Hmain; exact Hg.
     + intros c' id' s' Hg. getsimp.
       destruct (skey_case c id c' id') as [(E & -> & ->)|(E & Hne)]; rewrite E in Hg.
-      * injection Hg as <-. destruct (v1_stored_ok w ltac:(lia)) as (A1 & A2 & A3 & A4).
+      * injection Hg as <-. destruct (v1_stored_ok w) as (A1 & A2 & A4).
         unfold stg_ok. cbn [s_head s_versions s_state s_edits s_base List.length].
         repeat split; try assumption; try lia; try reflexivity.
       * apply stg_ok_same with (st := st); [apply Hstag with (c := c'); exact Hg|reflexivity|reflexivity].
@@ -308,29 +309,28 @@ Proof.
     + intros id' o' Hg. getsimp. eapply Hmain; exact Hg.
     + intros c' id' s' Hg. getsimp.
       destruct (skey_case c id c' id') as [(E & -> & ->)|(E & Hne)]; rewrite E in Hg.
-      * injection Hg as <-. destruct (Hstag _ _ _ Es) as (A1 & A2 & A3 & A4 & A5 & A6).
+      * injection Hg as <-. destruct (Hstag _ _ _ Es) as (A1 & A2 & A4 & A5 & A6).
         unfold stg_ok. cbn [s_head s_versions s_state s_edits s_base].
         repeat split; try assumption.
         rewrite apply_edits_snoc, <- A5. reflexivity.
       * apply stg_ok_same with (st := st); [apply Hstag with (c := c'); exact Hg|reflexivity|reflexivity].
   - (* Stage, clone from main *)
-    cbn [step_overflow] in Hov. rewrite Es, Em in Hov.
-    destruct (Hmain _ _ Em) as (Olin & Owf & Ofit & Ow & Onum).
-    destruct (vnext_ok_plus_one _ _ _ Owf Hov En) as (Nn & Nw & Nfit & Nwf).
+    destruct (Hmain _ _ Em) as (Olin & Owf & Ofit & Onum).
+    destruct (vnext_ok_plus_one _ _ _ Owf En) as (Nn & Nw & Nfit & Nwf).
     split.
     + intros id' o' Hg. getsimp. eapply Hmain; exact Hg.
     + intros c' id' s' Hg. getsimp.
       destruct (skey_case c id c' id') as [(E & -> & ->)|(E & Hne)]; rewrite E in Hg.
       * injection Hg as <-.
         unfold stg_ok. cbn [s_head s_versions s_state s_edits s_base].
-        split; [exact Nwf|]. split; [exact Nfit|]. split; [lia|]. split; [lia|]. split; [reflexivity|].
+        split; [exact Nwf|]. split; [exact Nfit|]. split; [lia|]. split; [reflexivity|].
         split; [exact Olin|]. split.
-        -- intros E0. rewrite E0 in Onum. cbn [List.length] in Onum. unfold vwf in Owf. lia.
+        -- intros E0. rewrite E0 in Onum. cbn [List.length] in Onum. unfold vnumok in Owf. lia.
         -- intros o2 Hg2 _. getsimp. rewrite Em in Hg2. injection Hg2 as <-.
            split; [apply extends_refl|symmetry; exact Nw].
       * apply stg_ok_same with (st := st); [apply Hstag with (c := c'); exact Hg|reflexivity|reflexivity].
   - (* Commit, new object *)
-    destruct (Hstag _ _ _ Es) as (Swf & Sfit & Sw & Snum & Sstate & Sbase).
+    destruct (Hstag _ _ _ Es) as (Swf & Sfit & Snum & Sstate & Sbase).
     split.
     + intros id' o' Hg. getsimp.
       destruct (bytes_case id id') as [(E & ->)|(E & Hne)]; rewrite E in Hg.
@@ -342,15 +342,15 @@ Proof.
       pose proof (Hstag _ _ _ Hg) as Hold.
       apply stg_ok_transfer with (st := st); [exact Hold|getsimp; lia|].
       intros o' Hg' l Hb Hl. getsimp.
-      destruct Hold as (_ & _ & _ & _ & _ & B). rewrite Hb in B. destruct B as (Bl & _ & Bf).
+      destruct Hold as (_ & _ & _ & _ & B). rewrite Hb in B. destruct B as (Bl & _ & Bf).
       destruct (bytes_case id id') as [(E' & ->)|(E' & Hne')]; rewrite E' in Hg'.
       * injection Hg' as <-. cbn [o_lineage] in Hl. lia.
       * apply Bf; assumption.
   - (* Commit, new version *)
     cbn [step_known] in Hkn.
     destruct (commit_ver_facts _ _ _ _ _ _ _ Hinv Es H1 Em Ep Hnum Hkn) as (Fb & Fv & Fh & Fs).
-    destruct (Hstag _ _ _ Es) as (Swf & Sfit & Sw & Snum & Sstate & Sbase).
-    destruct (Hmain _ _ Em) as (Olin & Owf & Ofit & Ow & Onum).
+    destruct (Hstag _ _ _ Es) as (Swf & Sfit & Snum & Sstate & Sbase).
+    destruct (Hmain _ _ Em) as (Olin & Owf & Ofit & Onum).
     split.
     + intros id' o' Hg. getsimp.
       destruct (bytes_case id id') as [(E & ->)|(E & Hne)]; rewrite E in Hg.
@@ -362,7 +362,7 @@ Proof.
       pose proof (Hstag _ _ _ Hg) as Hold.
       apply stg_ok_transfer with (st := st); [exact Hold|getsimp; lia|].
       intros o' Hg' l Hb Hl. getsimp.
-      destruct Hold as (_ & _ & _ & _ & _ & B). rewrite Hb in B. destruct B as (Bl & _ & Bf).
+      destruct Hold as (_ & _ & _ & _ & B). rewrite Hb in B. destruct B as (Bl & _ & Bf).
       destruct (bytes_case id id') as [(E' & ->)|(E' & Hne')]; rewrite E' in Hg'.
       * injection Hg' as <-. cbn [o_lineage o_head o_versions] in *.
         destruct (Bf _ Em Hl) as (Bext & Bw). split.
@@ -385,7 +385,7 @@ Proof.
       pose proof (Hstag _ _ _ Hg) as Hold.
       apply stg_ok_transfer with (st := st); [exact Hold|getsimp; lia|].
       intros o' Hg' l Hb Hl. getsimp.
-      destruct Hold as (_ & _ & _ & _ & _ & B). rewrite Hb in B. destruct B as (Bl & _ & Bf).
+      destruct Hold as (_ & _ & _ & _ & B). rewrite Hb in B. destruct B as (Bl & _ & Bf).
       destruct (bytes_case id id') as [(E' & ->)|(E' & Hne')]; rewrite E' in Hg'; [discriminate|].
       apply Bf; assumption.
 Qed.
@@ -430,8 +430,7 @@ Lemma step_rel_back dbg st c o st' r :
     (exists o0, mget st id = Some o0 /\ grows_from o0 o1) \/ mc_next st <= o_lineage o1.
 Proof.
   intros Hinv Hclean Hstep.
-  unfold step_clean in Hclean. apply andb_true_iff in Hclean. destruct Hclean as [Hkn Hov].
-  apply negb_true_iff in Hkn.
+  pose proof Hclean as Hkn. unfold step_clean in Hkn. apply negb_true_iff in Hkn.
   destruct Hstep as [o r Hr|id w Em Es|id e s Es|id e ob h Es Em En|id s Es H1 Em|id s ob p Es H1 Em Ep Hnum|id|id];
     getsimp.
   1-4,7: split; [lia|]; intros id' o1 Hg; getsimp; left; exists o1; split; [exact Hg|apply grows_from_refl].
@@ -491,7 +490,7 @@ Lemma reachable_heads dbg es id o :
   vfits (o_head o) = true.
 Proof.
   intros Hc Hg. destruct (reachable_inv dbg es Hc) as [Hmain _].
-  destruct (Hmain _ _ Hg) as (_ & Hwf & Hfit & _ & Hnum). unfold vwf in Hwf. repeat split; try assumption; lia.
+  destruct (Hmain _ _ Hg) as (_ & Hwf & Hfit & Hnum). unfold vnumok in Hwf. repeat split; try assumption; lia.
 Qed.
 
 Lemma commit_ver_unfold dbg st c id s st' :
@@ -545,7 +544,7 @@ Qed.
 (** the main repository's head is not the staged head - 1 (or the object is gone): refused,
     nothing changes - neither the repository nor the client's staged changes *)
 Lemma stale_commit_refused_unchanged dbg st c id s :
-  sget st c id = Some s -> vwf (s_head s) = true -> vn_number (s_head s) <> 1 ->
+  sget st c id = Some s -> vnumok (s_head s) = true -> vn_number (s_head s) <> 1 ->
   (forall o, mget st id = Some o -> vn_number (o_head o) + 1 <> vn_number (s_head s)) ->
   step dbg st c (Commit id) = (st, Err).
 Proof.
@@ -553,7 +552,7 @@ Proof.
   assert (E1 : (vn_number (s_head s) =? 1) = false) by lia. rewrite E1.
   destruct (mget st id) as [o|] eqn:Em; [|reflexivity].
   rewrite vprev_correct by assumption. rewrite E1. cbn [vn_number].
-  specialize (Hm o eq_refl). unfold vwf in Hwf.
+  specialize (Hm o eq_refl). unfold vnumok in Hwf.
   replace (vn_number (o_head o) =? vn_number (s_head s) - 1) with false by lia. reflexivity.
 Qed.
 
@@ -583,12 +582,33 @@ Proof.
 Qed.
 
 Lemma stage_refused_at_width_max dbg st c id o e :
-  mc_inv st -> sget st c id = None -> mget st id = Some o -> c14_overflow (o_head o) = false ->
+  mc_inv st -> sget st c id = None -> mget st id = Some o ->
   max_for_width (vn_width (o_head o)) < vn_number (o_head o) + 1 ->
   step dbg st c (Stage id e) = (st, Err).
 Proof.
-  intros [Hmain _] Es Em Hov Hmax. destruct (Hmain _ _ Em) as (_ & Hwf & _).
-  cbn [step]. rewrite Es, Em. rewrite (vnext_refuses_at_max dbg _ Hwf Hov Hmax). reflexivity.
+  intros [Hmain _] Es Em Hmax. destruct (Hmain _ _ Em) as (_ & Hwf & _).
+  cbn [step]. rewrite Es, Em. rewrite (vnext_refuses_at_max dbg _ Hwf Hmax). reflexivity.
+Qed.
+
+(** no operation ever panics in a reachable state (in particular not [next], at any width) *)
+Lemma step_never_panics dbg st c o : mc_inv st -> snd (step dbg st c o) <> Panic.
+Proof.
+  intros [Hmain Hstag]. destruct o as [id w|id e|id|id|id]; cbn [step].
+  - destruct (mget st id); [discriminate|]. destruct (sget st c id); discriminate.
+  - destruct (sget st c id) as [s|]; [discriminate|].
+    destruct (mget st id) as [o|] eqn:Em; [|discriminate].
+    destruct (Hmain _ _ Em) as (_ & Hok & _).
+    pose proof (vnext_never_panics dbg _ Hok) as Hp.
+    destruct (vnext dbg (o_head o)); [discriminate|discriminate|contradiction].
+  - destruct (sget st c id) as [s|] eqn:Es; [|discriminate].
+    destruct (Hstag _ _ _ Es) as (Hok & _).
+    destruct (vn_number (s_head s) =? 1) eqn:E1.
+    + destruct (mget st id); discriminate.
+    + destruct (mget st id) as [o|]; [|discriminate].
+      rewrite vprev_correct by assumption. rewrite E1.
+      destruct (vn_number (o_head o) =? vn_number (mkV (vn_number (s_head s) - 1) (vn_width (s_head s)))); discriminate.
+  - discriminate.
+  - discriminate.
 Qed.
 
 (** * No silent merge *)
@@ -622,10 +642,9 @@ Lemma commit_makes_stale dbg st a c id sc st1 :
   stale st1 c id.
 Proof.
   intros Hinv Hac Esc Hclean Hstep. pose proof Hinv as [Hmain Hstag].
-  destruct (Hstag _ _ _ Esc) as (_ & _ & _ & Cnum & _ & Cbase).
+  destruct (Hstag _ _ _ Esc) as (_ & _ & Cnum & _ & Cbase).
   assert (Hne : skey_eqb (c, id) (a, id) = false) by (apply skey_eqb_false; intros [= ->]; apply Hac; reflexivity).
-  unfold step_clean in Hclean. apply andb_true_iff in Hclean. destruct Hclean as [Hkn _].
-  apply negb_true_iff in Hkn. cbn [step_known] in Hkn.
+  pose proof Hclean as Hkn. unfold step_clean in Hkn. apply negb_true_iff in Hkn. cbn [step_known] in Hkn.
   cbn [step] in Hstep. destruct (sget st a id) as [s|] eqn:Es; [|discriminate].
   destruct (vn_number (s_head s) =? 1) eqn:E1.
   - destruct (mget st id) as [o|] eqn:Em; [discriminate|]. injection Hstep as <-.
@@ -638,7 +657,7 @@ Proof.
     { cbn [step]. rewrite Es, E1. exact Hstep. }
     destruct (commit_ver_unfold _ _ _ _ _ _ Es H1 Hstep') as (o & p & Em & Ep & Hnum & ->).
     destruct (commit_ver_facts _ _ _ _ _ _ _ Hinv Es H1 Em Ep Hnum Hkn) as (Fb & Fv & Fh & Fs).
-    destruct (Hmain _ _ Em) as (_ & _ & _ & _ & Onum).
+    destruct (Hmain _ _ Em) as (_ & _ & _ & Onum).
     exists sc. eexists. getsimp. rewrite Hne, bytes_eqb_refl. split; [exact Esc|]. split; [reflexivity|].
     cbn [o_lineage o_head]. destruct (s_base sc) as [l|] eqn:Eb.
     + destruct (N.eq_dec l (o_lineage o)) as [->|Hl].
@@ -668,8 +687,7 @@ Lemma stale_step dbg st c id c' o st' r :
 Proof.
   intros Hinv (s & ob & Es & Em & Hd) Hclean Hkeep Hstep.
   apply ev_keeps_key in Hkeep.
-  unfold step_clean in Hclean. apply andb_true_iff in Hclean. destruct Hclean as [Hkn _].
-  apply negb_true_iff in Hkn.
+  pose proof Hclean as Hkn. unfold step_clean in Hkn. apply negb_true_iff in Hkn.
   destruct Hstep as [o r Hr|i w Em' Es'|i e s' Es'|i e ob' h Es' Em' En|i s' Es' H1 Em'|i s' ob' p Es' H1 Em' Ep Hnum|i|i].
   - exists s, ob. auto.
   - exists s, ob. getsimp.
